@@ -36,7 +36,7 @@ OPS_CLOSE = {"write": 10, "fin": 3, "reset": 1.5, "stop": 1.0, "ping": 1.5, "key
 
 PROFILES = {
     "handshake": {"faults": ("drop", "dup", "delay", "spoof", "timer-late", "clock"), "datagram_sizes": SIZES,
-                  "t_adv_max": 3.0, "big_cert_p": 0.3, "blackout_on_accept_p": 0.2, "op_weights": OPS_CLOSE,
+                  "t_adv_max": 3.0, "big_cert_p": 0.3, "blackout_on_accept_p": 0.2, "retry_p": 0.25, "op_weights": OPS_CLOSE,
                   "custom_ops": {"close": op_close}},
     "migration": {"faults": ("drop", "dup", "delay", "spoof", "rebind", "blackout", "timer-late"),
                   "datagram_sizes": SIZES, "big_cert_p": 0.3, "blackout_on_accept_p": 0.2},
